@@ -7,10 +7,10 @@
        elements are independent (so that the Rosenblatt transform of a sample is independent uniform);
      - different seeds give different samples (a property of numpy's bit generator).
    Oracle contracts used as hypotheses: rvs_len (rvs honours the requested size). *)
-From Coq Require Import List Bool Arith ZArith PrimFloat.
+From Coq Require Import List Bool Arith ZArith PrimFloat Lia.
 From V.base Require Import FloatBits.
 From V.model Require Import Joint.
-From V.proofs Require Import JointProofs.
+From V.proofs Require Import JointProofs RosenblattSample.
 Import ListNotations.
 
 Section Abstract.
@@ -46,6 +46,26 @@ Section Abstract.
     forall r row, nth_error (rows_of_cols T zero n cols') r = Some row ->
       Drawn (theta d (nth j row zero)) (nth (length ds1) row zero).
   Proof. exact (draw_elementwise T zero G P). Qed.
+
+  (* (a) "so the Rosenblatt transform of the sample is independent standard normal" -- the deterministic core.
+     Contract pit_engine: the probability-integral transform of what one rvs call returns, element r taken with
+     ITS OWN parameter tuple, is a stream U n g of the requested count and the generator state only.
+     Then entry (r, k) of the Rosenblatt image of the sample -- the cdf of variable k with the parameters its
+     dependence functions give at row r's own value of the conditioning variable -- is element r of the stream of
+     the state the k-th call received: families, parameters and dependence functions cancel out, for every
+     admissible hierarchy of any dimension.
+     PARTIAL: that successive streams are independent and uniform is numpy's generator contract (see the header). *)
+  Theorem C07_rosenblatt_image_is_generator_stream_partial :
+    forall (cdf : sdim T G P -> P -> T -> T) (U : nat -> G -> list T) (ds : list (sdim T G P)) n g cols' tr' g',
+    (forall d, In d ds -> rvs_len T G P d) -> (forall d, In d ds -> pit_engine T zero G P cdf U d) ->
+    wf_sfrom T G P 0 ds ->
+    draw_cols T zero G P ds n g [] [] = (cols', tr', g') ->
+    forall r row, nth_error (rows_of_cols T zero n cols') r = Some row ->
+      length (rosenblatt T zero G P cdf ds row) = length ds /\
+      forall k, k < length ds ->
+        exists c, nth_error tr' k = Some c /\
+                  nth k (rosenblatt T zero G P cdf ds row) zero = nth r (U n (call_state G P c)) zero.
+  Proof. exact (rosenblatt_of_sample T zero G P). Qed.
 
   (* unconditional column: one call with the distribution's own parameters and size n *)
   Theorem C07_unconditional_column : forall (ds1 : list (sdim T G P)) d ds2 n g cols' tr' g',
@@ -125,8 +145,39 @@ Proof.
   split; intros; cbn; now rewrite map_length, ?seq_length.
 Qed.
 
+(* non-vacuity of the Rosenblatt theorem: an inverse-transform engine over nat ("cdf p x = x - p", "icdf p u = p + u",
+   the stream of state g and count n is g, g+1, ..., g+n-1) meets pit_engine, the 3-dimensional hierarchy is
+   admissible, and the image of the sample is the streams of states 3, 4, 5 whatever the dependence functions are *)
+Lemma nth_map_seq0 (f : nat -> nat) r n : r < n -> nth r (map f (seq 0 n)) 0 = f r.
+Proof.
+  intros H. rewrite (nth_indep _ 0 (f 0)) by (now rewrite map_length, seq_length).
+  rewrite map_nth, seq_nth by exact H. reflexivity.
+Qed.
+Example C07_rosenblatt_nonvacuous :
+  let U := fun (n g : nat) => map (fun r => g + r) (seq 0 n) in
+  let rn := fun (p : nat) (n : nat) (g : nat) => (map (fun r => p + (g + r)) (seq 0 n), S g) in
+  let rp := fun (ps : list nat) (g : nat) => (map (fun pr => fst pr + (g + snd pr)) (combine ps (seq 0 (length ps))), S g) in
+  let cdf := fun (_ : sdim nat nat nat) (p x : nat) => x - p in
+  let d0 := mksdim None 7 (fun x => x) rn rp in
+  let d1 := mksdim (Some 0) 0 (fun x => 2 * x) rn rp in
+  let d2 := mksdim (Some 1) 0 (fun x => x + 1) rn rp in
+  pit_engine nat 0 nat nat cdf U d1 /\ wf_sfrom nat nat nat 0 [d0; d1; d2] /\
+  map (rosenblatt nat 0 nat nat cdf [d0; d1; d2]) (draw_sample nat 0 nat nat (fun s => Z.to_nat s) [d0; d1; d2] 2 50 (RSInt 3))
+    = [[3; 4; 5]; [4; 5; 6]].
+Proof.
+  cbn zeta. split; [|split; [|reflexivity]].
+  - split.
+    + intros p n g r Hr. cbn [fst rvs_n]. rewrite !nth_map_seq0 by exact Hr. cbn beta. lia.
+    + intros ps g r dP Hr. cbn [fst rvs_par]. rewrite nth_map_seq0 by exact Hr.
+      rewrite (nth_indep _ 0 ((fun pr => fst pr + (g + snd pr)) (dP, 0))) by (now rewrite map_length, combine_length, seq_length, Nat.min_id).
+      rewrite (map_nth (fun pr => fst pr + (g + snd pr))), combine_nth by (now rewrite seq_length).
+      rewrite seq_nth by exact Hr. cbn. lia.
+  - cbn. repeat split; intros j Hj; inversion Hj; lia.
+Qed.
+
 Print Assumptions C07_row_pairing.
 Print Assumptions C07_conditional_draw_same_row_partial.
+Print Assumptions C07_rosenblatt_image_is_generator_stream_partial.
 Print Assumptions C07_unconditional_column.
 Print Assumptions C07_generator_threaded.
 Print Assumptions C07_prefix_independent.
